@@ -99,7 +99,7 @@ def part_a(job):
         mem = MemoryElement(id=mid, type=0x15, size=0x100000000, mem_handler=cf.mem)
         sm = dev.mem_by_id[mid]
         for addr in ADDRS:
-            for n in range(0, 62):
+            for n in list(range(0, 62)) + ([2000, 2561] if addr == ADDRS[0] else []):
                 rp = {'part': 'A', 'op': 'read', 'mem': mid, 'addr': addr, 'len': n}
                 del obs.events[:]
                 rx0 = len(dev.rx)
@@ -139,7 +139,8 @@ def part_a(job):
                     p.violation('mem:read:record_left_behind', 'after read(mem %d, %#x, %d) _read_requests=%r' % (
                         mid, addr, n, list(rd_)), rp)
                     rd_.clear()
-            for n in range(0, 77):
+            # long transfers (a chunk is then less than one per cent of the data) at the first address only
+            for n in list(range(0, 77)) + ([2500, 2526, 2551, 5100] if addr == ADDRS[0] else []):
                 rp = {'part': 'A', 'op': 'write', 'mem': mid, 'addr': addr, 'len': n, 'progress': with_progress}
                 del obs.events[:]
                 rx0 = len(dev.rx)
@@ -283,9 +284,13 @@ def exec_c06(cfg, devs):
                 if ex.env.links and not ex.frozen:
                     ex.env.links[-1].fail_from_driver_thread()
             s.spawn(None, fault_body, name='env-driver-fault')
+        # a user stops issuing requests once the library has *told* it that the link is gone (not before: a request can
+        # race with the error path)
+        cf.disconnected.add_callback(lambda uri: info.__setitem__('told', True))
+
         def issue(i, kind, mi, addr, ln):
             ex.log('op', i, kind)
-            if cf.link is None:
+            if info.get('told'):
                 info['issue_order'].append(i)
                 info['accepted_by_index'][i] = 'SKIPPED'
                 return
@@ -584,6 +589,16 @@ def _focus_filter(devs, i, alt, label):
     return label.startswith('L:') or label in ('lock.release', 'link.rx')
 
 
+def _fires(label, alt, what):
+    return any(a == alt and nm == what for a, nm in getattr(label, 'lazy', ()))
+
+
+def _fault_user_filter(devs, i, alt, label):
+    if not devs:
+        return _fires(label, alt, 'env.linkfault')
+    return i <= devs[0][0] + 30 and _fires(label, alt, 'user2.op')
+
+
 def run(ck):
     cfh.setup()
     ck.rule = ('(B also: 5 sequences whose last operation is issued by a second user thread at any scheduling point) A: 3 memory ids x 7 start addresses x (read lengths 0..61 + write lengths 0..76, with and without '
@@ -610,6 +625,13 @@ def run(ck):
     # quick: the environment event plus one switch (within 150 points); thorough: plus a second switch close to the first
     r3 = explore(ck, exec_c06, focus, 2 if ck.quick else 3, child_filter=_focus_filter, max_execs=3000000)
     ck.note('focused_deviations', r3)
+    # the link is lost at any point and a second user thread issues its request within the next 30 points (while the
+    # error path is still running)
+    fu = [{'name': 'fault+user2:r0@0+21,r0@40+21', 'ops': (('r', 0, 0, 21), ('r', 0, 40, 21)), 'fault': True, 'second_user': 1.3},
+          {'name': 'fault+user2:w0@0+26,w0@40+26', 'ops': (('w', 0, 0, 26), ('w', 0, 40, 26)), 'fault': True, 'second_user': 1.3},
+          {'name': 'fault+user2:r0@0+21,w0@40+26', 'ops': (('r', 0, 0, 21), ('w', 0, 40, 26)), 'fault': True, 'second_user': 1.3}]
+    r4 = explore(ck, exec_c06, fu, 2, child_filter=_fault_user_filter, max_execs=3000000)
+    ck.note('fault_then_second_user', r4)
     if not ck.quick:
         deep = [c for c in cs if len(c['ops']) >= 2][:6] + [c for c in cs if len(c['ops']) == 1 and c['ops'][0][3] in (21, 26)]
         r2 = explore(ck, exec_c06, [dict(c, name=c['name'] + ':2dev', settle=4.6) for c in deep], 2, max_execs=2000000)
